@@ -11,6 +11,7 @@ from .. import absx, facts, ir, report, tsrules, il
 
 class ResultAdapter(tsrules.Adapter):
     observers = ('has_value', 'has_error', 'error')
+    derived = {'operator bool': lambda obs: obs[0]}
 
     def __init__(self, enum=None):
         """enum: the error enum's facts; None (the enumerator) need not be the zero value"""
@@ -59,6 +60,7 @@ class ResultAdapter(tsrules.Adapter):
 class ResultVoidAdapter(ResultAdapter):
     """Result<E, void>: a separate specialisation that holds only the error code"""
     observers = ('has_error', 'error')
+    derived = {'operator bool': lambda obs: not obs[0]}
 
     def __init__(self, enum=None):
         ResultAdapter.__init__(self, enum)
@@ -87,6 +89,7 @@ class ResultVoidAdapter(ResultAdapter):
 class OptionalAdapter(tsrules.Adapter):
     observers = ('empty',)
     empty_obs = (1,)
+    derived = {'operator bool': lambda obs: not obs[0]}
 
     def expected_live(self, obs, alts):
         # a trivially destructible element has no lifetime cells: the specialised State/Storage twins copy raw storage
@@ -233,6 +236,8 @@ def run(chk, db):
     from . import c13cmp
     c13cmp.rules(chk, db, 'CMP')
     messages(chk, db, 'MSG')
+    tsrules.noexcept_rule(chk, db, 'NX', ('nop::Optional', 'nop::Result', 'nop::Entry'), minimum=4,
+                          text='members of Optional / Result / Entry declared noexcept call nothing that may throw (probe element types have throwing copy and move operations)')
     from .. import witness
     witness.run(chk, 'c13_moves.cpp', 'MVW', 'compile-time witnesses: move construction / move assignment / converting move assignment of Optional, Entry, '
                 'whole tables, Result and Variant compile for a move-only element type (so overload resolution selects the rvalue overloads)', minimum=5)
